@@ -31,6 +31,18 @@ CLAIMED = {
          "stack depth is established by the regenerated no-self-recursion fact plus the runtime stack-limit run, not by a theorem about Go frames"),
  "C16": ("Theorems (Lean 4, all JSON values, any nesting, any number of top-level values): json_refines — the model of the pull-parser adapter (frame stack with onField/emitEndElement flags) emits exactly the events of the README tree; json_truncated_errors — every proper non-empty prefix of a value's token stream is an error; json_texts_are_leaves — one text event per scalar, in order, never merged." + TIE + " Number rendering (FormatFloat 'g') is modelled and compared; malformed and truncated texts must be errors.",
          "encoding/json's tokenizer is trusted; its token stream is recorded and fed to the model"),
+ "C08": ("Proved (Lean 4, kernel-evaluated over tables regenerated from /repo on every run): the parser's production table and the evaluator's handler table are the ones the Lean evaluator was written against (productions_agree, handlers_agree); no production is evaluated with a nonterminal child ignored (no_dropped_symbol); two-child handlers sit only on two-child productions; the operator productions are left-recursive level by level (left associativity, precedence order); the XPath core library is present with the Recommendation's arities (builtins_agree). Checked by correspondence, not proved: every generated abstract expression is rendered with minimal parentheses, redundant parentheses and arbitrary legal white space (abbreviated and unabbreviated), parsed and evaluated by the real library and compared with the evaluation of the abstract syntax tree by the Lean model and spec; strings that are not expressions (by construction) must be rejected with an error." + TIE,
+         "gogll's GLL engine and lexer are not modelled (trusted to implement the production table); five grammar/lexer deviations that need a parser regeneration are recorded as known findings (operator words as names, '1.', names starting with '_', backslash in literals, white space inside QNames/numbers) and are never generated"),
+ "C09": ("Theorem readxml_refines (Lean 4, every abstract document satisfying the decidable predicate WFDoc = well-formed, namespace-conformant, canonical text nodes): feeding the token stream of the document through the model of the XML adapter (merging adjacent character data, dropping the XML declaration, directives and top-level white space, namespace events then attribute events) and the model of the store yields a tree that satisfies the Cursor contract and whose description (kinds, expanded names, values, nesting depth, in-scope namespace bindings per element incl. xml, inherited, overridden, undeclared default) equals the XPath data model of the document; CDATA is text; xmlns attributes are not attributes; decide-checked counter-examples document the recorded legacy deviation." + TIE + " The token model tokensOf is itself compared with the real encoding/xml decoder on every generated document; ISO-8859-1/-15, windows-1252, US-ASCII documents and malformed documents (unclosed, mismatched, undefined entity, invalid character, invalid UTF-8) are run against the real ReadXml (errors required).",
+         "tokenisation, entity expansion, charset decoding and well-formedness checking are encoding/xml's and x/net/html/charset's: validated differentially only; KNOWN FINDING KF-xmlns-local-attribute (pinned by TestNamespaces) excluded by WFDoc"),
+ "C11": ("Theorems (Lean 4, any evaluator semantics): nametest_by_uri/nsAny/localAny/name — prefixed name tests select by the URI bound in the QUERY's bindings and local name, unprefixed ones only nodes in no namespace; prefix_rename_invariant — evaluation is invariant under every injective renaming of prefixes in the query and its bindings; doc_prefix_irrelevant — the tree stores no element/attribute prefixes; var_exact — a variable evaluates to exactly the bound value of any type; user_fn_shadows_builtin/user_fn_receives — a registered function is called in preference to a builtin with the evaluated arguments in order, the context value and position; unbound prefix, variable, function are errors." + TIE + " Instrumented user functions and rebinding/aliasing environments are exercised against the real library.",
+         "prefix_rename_invariant excludes name tests on the namespace axis (library-specific rule, outside the property)"),
+ "C12": ("Theorems (Lean 4): name_fns_spec — local-name/namespace-uri/name of the first node in document order: element/attribute names, PI target, namespace prefix, empty otherwise, `{uri}local` notation, name = local-name iff no URI; lang_spec — exact ASCII-case-insensitive equal-or-prefix-followed-by-'-' rule; findLang_spec — nearest xml:lang on the ancestor-or-self elements; count_spec — size of the node-set, error for other types and arities; regenerated builtins_agree." + TIE,
+         "none beyond the common trusted base"),
+ "C15": ("Proved: in the model every partial operation is an explicit error value and the evaluator returns a value or an error for every expression and context (no panic outcome exists); regenerated partial_sites_covered (no function of the hand-written packages has more index/slice/assertion/%/conversion/panic operations than the reviewed table) and binary_handlers_have_two_children; substring/arith totality (C07/C06), truncated JSON is an error (C16). Exercised, not proved (runtime behaviour of third-party code): every public entry point on token soups, random bytes, deep expressions, mutated XML/JSON/HTML in-process under recover(): no panic, no nil/nil; all eval families classify an internal 'xpath query panic' as a violation." + TIE,
+         "partial: totality of gogll's parser, encoding/xml, encoding/json and x/net/html on arbitrary bytes, stack exhaustion and memory are runtime behaviour that a model cannot exhibit; they are fuzzed, not proved"),
+ "C17": ("Theorem html_refines (Lean 4, every DOM whose document node starts with a doctype and whose nodes are elements/text/comments): the model of the htmlParser.Pull state machine (current node + emitSelfClosingTag/nodeEmitted/crawlToParent flags + attribute queue) run on the pointer representation (Parent/FirstChild/NextSibling) of the DOM emits exactly the events of the mirrored tree — same elements, nesting and order with local names, attributes minus xmlns declarations with prefixes stripped, text, comments — followed by one surplus end event (a no-op by C10); with the exact fuel bound; html_no_namespace, html_counts (nothing skipped or duplicated)." + TIE + " The DOM of golang.org/x/net/html.Parse on generated tag soup is dumped by an independent walk and fed to the model.",
+         "html.Parse (the HTML5 tree construction) is the definition of the tree in the property and is trusted"),
  "C18": ("Theorems (Lean 4): exec_seed — a query starts with the given node as context node, position 1, size 1; compose_path — the nodes selected by P/R are the union of the nodes R selects from each node P selects (spec evaluator; for the Go-shaped evaluator via exec_refines_spec); fn_in_path_arg — P/f() equals f(P) for the seven context-dependent builtins." + TIE,
          "same side conditions as C02"),
 }
